@@ -226,7 +226,106 @@ func prEmitRaceMode(mode string) string {
 	return fmt.Sprintf("%v", s3.got)
 }
 
+// pr.sameuid: one connection registers for two properties of an object under one user id, by hand: the second
+// registration is refused (a user id names one registration of the object), the first goes on receiving its events,
+// and giving it up is answered.
+func prSameUID(a []string) string {
+	log.SetOutput(ioutil.Discard)
+	l := &auListener{ch: make(chan qnet.Stream), closed: make(chan struct{})}
+	srv, err := bus.StandAloneServer(l, bus.Yes{}, bus.PrivateNamespace())
+	if err != nil {
+		return "setup-error:" + err.Error()
+	}
+	defer func() { // an object that has stopped answering must not keep the harness
+		done := make(chan struct{})
+		go func() { srv.Terminate(); close(done) }()
+		select {
+		case <-done:
+		case <-time.After(3 * time.Second):
+		}
+	}()
+	var meta object.MetaObject
+	meta.Properties = map[uint32]object.MetaProperty{200: {Uid: 200, Name: "level", Signature: "i"}, 201: {Uid: 201, Name: "gain", Signature: "i"}}
+	custom := bus.NewBasicObject(prNoop{}, meta, func(string, []byte) error { return nil })
+	svc, err := srv.NewService("Custom", custom)
+	if err != nil {
+		return "setup-error:" + err.Error()
+	}
+	sid := svc.ServiceID()
+	x, y := gonet.Pipe()
+	l.ch <- qnet.ConnStream(y)
+	defer x.Close()
+	read := func() (*qnet.Message, error) {
+		r := new(qnet.Message)
+		rerr := make(chan error, 1)
+		go func() { rerr <- r.Read(x) }()
+		select {
+		case err := <-rerr:
+			return r, err
+		case <-time.After(2 * time.Second):
+			return nil, fmt.Errorf("read timeout")
+		}
+	}
+	ask := func(h qnet.Header, p []byte) (*qnet.Message, error) {
+		m := qnet.NewMessage(h, p)
+		werr := make(chan error, 1)
+		go func() { werr <- m.Write(x) }()
+		select {
+		case err := <-werr:
+			if err != nil {
+				return nil, err
+			}
+		case <-time.After(2 * time.Second):
+			return nil, fmt.Errorf("write timeout")
+		}
+		return read()
+	}
+	if _, err := ask(qnet.NewHeader(qnet.Call, 0, 0, 8, 1), auMap(nil)); err != nil {
+		return "setup-error:authenticate:" + err.Error()
+	}
+	reg := func(prop uint32, id uint32) string {
+		p := append(append(leBytes(4, 1), leBytes(4, uint64(prop))...), leBytes(8, 7)...)
+		r, err := ask(qnet.NewHeader(qnet.Call, sid, 1, 0, id), p)
+		if err != nil {
+			return "no-answer"
+		}
+		if r.Header.Type == qnet.Reply {
+			return "accepted"
+		}
+		return "refused"
+	}
+	first, second := reg(200, 2), reg(201, 3)
+	_, raw := prEncode("i", int64(42))
+	done := make(chan error, 1)
+	go func() { done <- custom.UpdateProperty(200, "i", raw) }()
+	ev := "none"
+	if m, err := read(); err == nil && m.Header.Type == qnet.Event && m.Header.Action == 200 {
+		ev = fmt.Sprintf("%d", prDecodeBytes("i", m.Payload))
+	}
+	select {
+	case <-done:
+	case <-time.After(3 * time.Second):
+		return "stuck-announcement"
+	}
+	unreg := append(append(leBytes(4, 1), leBytes(4, 200)...), leBytes(8, 7)...)
+	left := "unanswered"
+	if r, err := ask(qnet.NewHeader(qnet.Call, sid, 1, 1, 4), unreg); err == nil {
+		left = "answered"
+		if r.Header.Type != qnet.Reply {
+			left = "refused"
+		}
+	}
+	return fmt.Sprintf("first=%s second=%s event=%s unregister=%s", first, second, ev, left)
+}
+
 func init() {
+	executors["pr.sameuid"] = func(a []string) string {
+		r := prSameUID(a)
+		if r != "first=accepted second=refused event=42 unregister=answered" {
+			lastFailDetail = r
+		}
+		return r
+	}
 	executors["pr.hanguprace"] = func(a []string) string {
 		r := prEmitRaceMode("hangup")
 		if r != "[42 43] [42 43]" {
